@@ -692,6 +692,85 @@ Definition infer_range (ins : list (option symt)) : ires :=
   | _, _, _ => IErr EInputCount
   end.
 
+(* ------------------------------------------------ pooling (ops/conv_pool.rs) *)
+(* fn output_size for one spatial dim: [pad] = Some (start, end) for DimPadding::Fixed, None for
+   DimPadding::Same.  The expression tree is built exactly as the Rust code builds it (it is not
+   simplified). *)
+Definition out_size_expr (in_size : expr) (k s d : Z) (pad : option (Z * Z)) (ceil : bool) : expr :=
+  match pad with
+  | Some (ps, pe) =>
+      let one := Value 1 in
+      let padded := Add (Add in_size (Value ps)) (Value pe) in
+      let windowed := Sub (Sub padded (Mul (Value d) (Sub (Value k) one))) one in
+      if ceil then
+        Min (Add (DivCeil windowed (Value s)) one)
+            (Add (Div (Sub (Add in_size (Value ps)) one) (Value s)) one)
+      else Add (Div windowed (Value s)) one
+  | None => DivCeil in_size (Value s)
+  end.
+(* Padding::dim: pads = [starts.., ends..] *)
+Definition pad_dim (pads : option (list Z)) (dim nspatial : nat) : option (option (Z * Z)) :=
+  match pads with
+  | None => Some None
+  | Some l => match nth_error l dim, nth_error l (nspatial + dim) with
+              | Some a, Some b => Some (Some (a, b))
+              | _, _ => None
+              end
+  end.
+(* Pool::infer_shapes; MaxPool / AveragePool pass dilations = [1, 1] *)
+Definition infer_pool (ks : list Z) (pads : option (list Z)) (strides : list Z) (ceil : bool)
+                      (ins : list (option symt)) : ires :=
+  match input ins 0 with
+  | None => IErr EInputCount
+  | Some t =>
+      match t_shape t with
+      | None => IOk [TUnknown]
+      | Some dims =>
+          if Nat.ltb (length dims) 3 then IErr ERank
+          else
+            let nsp := (length dims - 2)%nat in
+            match nth_error dims 0, nth_error dims 1, nth_error dims 2 with
+            | Some n, Some c, Some h =>
+                match pad_dim pads 0 nsp, nth_error ks 0, nth_error strides 0 with
+                | Some ph, Some kh, Some sh =>
+                    let oh := out_size_expr h kh sh 1 ph ceil in
+                    match nth_error dims 3 with
+                    | None => IOk [TShape [n; c; oh]]
+                    | Some w =>
+                        match pad_dim pads 1 nsp, nth_error ks 1, nth_error strides 1 with
+                        | Some pw, Some kw, Some sw => IOk [TShape [n; c; oh; out_size_expr w kw sw 1 pw ceil]]
+                        | _, _, _ => IErr EInvalid
+                        end
+                    end
+                | _, _, _ => IErr EInvalid
+                end
+            | _, _, _ => IPanic
+            end
+      end
+  end.
+
+(* the same arithmetic over Z, and the execution's version of it (src/ops/pooling.rs
+   output_size_and_padding_for_axis, explicit padding): [None] = the operator fails *)
+Definition pool_out_z (n k s d ps pe : Z) (ceil : bool) : Z :=
+  let w := n + ps + pe - d * (k - 1) - 1 in
+  if ceil then Z.min (div_ceil_z w s + 1) (Z.quot (n + ps - 1) s + 1) else Z.quot w s + 1.
+(* trailing positions that start at or beyond in_size + pad_start are removed: [fx] = all of them
+   (code with the fix of finding F82), otherwise only one *)
+Fixpoint drop_trailing (fuel : nat) (out s lim : Z) : Z :=
+  match fuel with
+  | O => out
+  | S f => if (0 <? out) && (lim <=? (out - 1) * s) then drop_trailing f (out - 1) s lim else out
+  end.
+Definition pool_exec_z (fx : bool) (n k s d ps pe : Z) (ceil : bool) : option Z :=
+  if (d <? 1) || (k <? 1) || (s <? 1) then None
+  else if n + ps + pe <? k + (k - 1) * (d - 1) then None
+  else
+    let w := n + ps + pe - d * (k - 1) - 1 in
+    if ceil then
+      let out0 := div_ceil_z w s + 1 in
+      Some (if fx then drop_trailing (Z.to_nat out0) out0 s (n + ps) else drop_trailing 1 out0 s (n + ps))
+    else Some (Z.quot w s + 1).
+
 (* ------------------------------------------------------------------- operators *)
 Inductive op :=
 | OUnary | OIdentity | OCast (to_int32 : bool) | ONeg
@@ -703,6 +782,7 @@ Inductive op :=
 | OReduce (axes : option (list Z)) (keep noop : bool)   (* noop_with_empty_axes: ignored by inference *)
 | OMatMul | OGemm (ta tb : bool)
 | OConstantOfShape (v : option Z) | ORange
+| OPool (ks : list Z) (pads : option (list Z)) (strides : list Z) (ceil : bool)   (* MaxPool, AveragePool *)
 | OOther.                                  (* operator without a model *)
 
 (* code version: which SymExpr::range, and whether this group's fix commits are applied *)
@@ -733,6 +813,7 @@ Definition infer_with (v : ver) (o : op) (ins : list (option symt)) : ires :=
   | OGemm a b => infer_gemm a b ins
   | OConstantOfShape v => infer_constant_of_shape v ins
   | ORange => infer_range ins
+  | OPool ks p st c => infer_pool ks p st c ins
   | OOther => IOk []
   end.
 Definition ver_fixed : ver := {| v_range := range; v_fixed := true; v_divx := false |}.     (* this group's and C11's fixes *)
@@ -1129,6 +1210,21 @@ Definition exec_ref (o : op) (ins : list (option ctensor)) : option (list ctenso
           end
       | _, _, _ => None
       end
+  | OPool ks pads st ceil =>
+      (* reference: NCHW input with explicit pads (auto_pad is outside the reference's domain, see
+         ref_total); follows the execution with the fix of finding F82 *)
+      match cin ins 0, pads with
+      | Some t, Some [ph0; pw0; ph1; pw1] =>
+          match c_shape t, ks, st with
+          | [n; c; h; w], [kh; kw], [sh; sw] =>
+              match pool_exec_z true h kh sh 1 ph0 ph1 ceil, pool_exec_z true w kw sw 1 pw0 pw1 ceil with
+              | Some oh, Some ow => Some [cshape [n; c; oh; ow]]
+              | _, _ => None
+              end
+          | _, _, _ => None
+          end
+      | _, _ => None
+      end
   | OOther => None
   end.
 
@@ -1250,6 +1346,8 @@ Definition ref_total (o : op) (ins : list (option ctensor)) : bool :=
                | Some a, Some b => Nat.leb 2 (length (c_shape a)) && Nat.leb 2 (length (c_shape b))
                | _, _ => true
                end
+  | OPool _ _ _ _ => false    (* the reference covers explicit pads on NCHW inputs only; and before the fix
+                                of F82 the execution differs for end paddings larger than the kernel *)
   | _ => true
   end.
 
@@ -1303,6 +1401,9 @@ Definition show (c : case) :=
      F73  Range with symbolic start/limit: a negative element count is not clamped to 0
      F75  Slice with symbolic start/end: `min(end, size) - min(start, size)` assumes start <= end
      F76  SkipLayerNormalization: the unused outputs are inferred as shape [0], executed as scalars
+     F82  MaxPool/AveragePool with ceil_mode and an end padding larger than the kernel: execution
+          removed only ONE trailing position that starts beyond the input (inference removes all);
+          the harness names such cases "Pool:pad_end>kernel"
      F78  Reshape: a symbolic element of the shape input that evaluates to 0 (copy) or -1 (infer)
           at run time is inferred as an ordinary size
      F5   Equal folds to a constant from SymExpr::range (only while the F5 fix is not applied)  *)
@@ -1348,6 +1449,7 @@ Definition kn_F78 (c : case) (outs : list symt) (i : inst) : bool :=
                     | (Some (TVector l), Some ct) => match c_data ct with Some vs => sym_special l vs | None => false end
                     | _ => false
                     end) (combine (c_in c) (i_in i)).
+Definition kn_F82 (c : case) (outs : list symt) (i : inst) : bool := named c "Pool:pad_end>kernel".
 Definition kn_F5 (c : case) (outs : list symt) (i : inst) : bool :=
   match c_op c with OEqual => true | _ => false end.
 (* F76 is per output *)
@@ -1370,16 +1472,16 @@ Definition inst_fails (f76 : bool) (c : case) (outs : list symt) (i : inst) : bo
   end.
 (* k..: which classes are recorded as KNOWN (status "known" in known_findings.json); a class
    that is not recorded is not excluded *)
-Definition prop_ok_excl_k (k70 k73 k75 k76 k78 k5 : bool) (c : case) : bool :=
+Definition prop_ok_excl_k (k70 k73 k75 k76 k78 k5 k82 : bool) (c : case) : bool :=
   match c_res c with
   | IOk outs =>
       forallb (fun i => negb (inst_fails k76 c outs i) ||
                         (k70 && kn_F70 c outs i) || (k73 && kn_F73 c outs i) || (k75 && kn_F75 c outs i) ||
-                        (k78 && kn_F78 c outs i) || (k5 && kn_F5 c outs i)) (c_insts c)
+                        (k78 && kn_F78 c outs i) || (k5 && kn_F5 c outs i) || (k82 && kn_F82 c outs i)) (c_insts c)
   | _ => true
   end.
-Definition prop_ok_excl := prop_ok_excl_k true true true true true false.
-Definition prop_ok_excl_f5 := prop_ok_excl_k true true true true true true.
+Definition prop_ok_excl := prop_ok_excl_k true true true true true false true.
+Definition prop_ok_excl_f5 := prop_ok_excl_k true true true true true true true.
 (* hit_X c = false  <->  some failing instantiation of c is in class X (for the report) *)
 Definition nohit (k : case -> list symt -> inst -> bool) (c : case) : bool :=
   match c_res c with
@@ -1390,6 +1492,7 @@ Definition nohit_F70 := nohit kn_F70.
 Definition nohit_F73 := nohit kn_F73.
 Definition nohit_F75 := nohit kn_F75.
 Definition nohit_F78 := nohit kn_F78.
+Definition nohit_F82 := nohit kn_F82.
 Definition nohit_F5 := nohit kn_F5.
 Definition nohit_F76 (c : case) : bool :=
   match c_res c with
